@@ -803,6 +803,12 @@ func subWriteSide() mon.Sub {
 					w.SetExtensions(&wsflate.MessageState{})
 					det["send_extension_attached"] = true
 				}
+				if c.I%4 == 1 {
+					// the single-frame mode (what a compressing sender uses): nothing is sent before Flush, everything
+					// written until then is the WRITER's copy - the caller's pieces are free the moment Write returns
+					w.DisableFlush()
+					det["flush_disabled"] = true
+				}
 				// write in pieces; scribble each piece right after Write returned
 				for off := 0; off < len(p); {
 					k := 1 + c.Rng.Intn(len(p)-off)
